@@ -282,6 +282,7 @@ func main() {
 		runCase(s, lens, readerModes[rnd.Intn(len(readerModes))])
 	}
 	highCounters(r, rnd)
+	farCounters(r, rnd)
 	duplex(r, rnd)
 	queued(r, rnd)
 	r.Floor("queued_messages", int(r.Counter("queued_messages")), 1000)
@@ -542,4 +543,67 @@ func highCounters(r *vf.Run, rnd *rand.Rand) {
 		r.Distinct("frame_counter_boundary_crossed", fmt.Sprint(n))
 		r.Nontrivial(fmt.Sprintf("high-counter/%d", n))
 	}
+}
+
+// farCounters: positions of the 64-bit frame counter that no test can reach by sending frames.  The session is
+// placed there through the crypto.VerifSetFrameCounters hook and a few messages are compared frame by frame with
+// the reference framing at the same counter, in both directions, across the 2^32, 2^40, 2^48, 2^56 and 2^63 marks
+// and just below 2^64.
+func farCounters(r *vf.Run, rnd *rand.Rand) {
+	marks := []uint64{1<<32 - 3, 1 << 32, 1<<32 + 5, 1<<33 - 1, 1<<40 - 2, 1<<48 - 2, 1<<56 - 2, 1<<63 - 2, 1<<63 + 7, 3<<32 + 5, ^uint64(0) - 40}
+	for _, at := range marks {
+		var secret [32]byte
+		rnd.Read(secret[:])
+		acc, err1 := crypto.NewSecureSessionFromSharedKey(secret)
+		ctl, err2 := crypto.NewSecureClientSessionFromSharedKey(secret)
+		if err1 != nil || err2 != nil {
+			r.Inconclusive("session constructors failed")
+			return
+		}
+		if !crypto.VerifSetFrameCounters(acc, at, at) || !crypto.VerifSetFrameCounters(ctl, at, at) {
+			r.Inconclusive("the frame counter hook does not apply to the session type any more")
+			return
+		}
+		c2a, a2c := refctl.SessionKeys(secret[:])
+		refOut := &refctl.Framer{Key: a2c, Count: at}
+		refIn := &refctl.Framer{Key: c2a, Count: at}
+		for k, n := range []int{1, 1024, 2500, 17, 3000} {
+			p := make([]byte, n)
+			rnd.Read(p)
+			w := map[string]interface{}{"frame_counter": fmt.Sprint(refOut.Count), "payload_len": n, "secret": vf.Hex(secret[:])}
+			e, err := acc.Encrypt(bytes.NewReader(p))
+			if err != nil {
+				r.Violation("far-counter:encrypt-error", fmt.Sprintf("Encrypt at frame counter %d failed: %v", refOut.Count, err), w)
+				return
+			}
+			wire, _ := ioutil.ReadAll(e)
+			if want := refOut.SealFrames(p, nil); !bytes.Equal(wire, want) {
+				r.Violation("far-counter:wire-mismatch", fmt.Sprintf("message %d sealed at frame counter %s differs from the reference framing (64-bit little-endian counter nonce)", k, w["frame_counter"]), w)
+				return
+			}
+			d, err := ctl.Decrypt(bytes.NewReader(wire))
+			if err != nil {
+				r.Violation("far-counter:decrypt-error", fmt.Sprintf("hc's other end rejects a message at frame counter %s: %v", w["frame_counter"], err), w)
+				return
+			}
+			if got, _ := ioutil.ReadAll(d); !bytes.Equal(got, p) {
+				r.Violation("far-counter:roundtrip-mismatch", "a message at a far counter position decrypts to other bytes", w)
+				return
+			}
+			// reference-framed controller message into hc's accessory end
+			d, err = acc.Decrypt(bytes.NewReader(refIn.SealFrames(p, nil)))
+			if err != nil {
+				r.Violation("far-counter:rejects-reference-wire", fmt.Sprintf("hc rejects reference frames at frame counter %s: %v", w["frame_counter"], err), w)
+				return
+			}
+			if got, _ := ioutil.ReadAll(d); !bytes.Equal(got, p) {
+				r.Violation("far-counter:reference-mismatch", "reference frames at a far counter position decrypt to other bytes", w)
+				return
+			}
+		}
+		r.Evals(10)
+		r.Count("far_counter_positions", 1)
+		r.Nontrivial(fmt.Sprintf("far-counter/%d", at))
+	}
+	r.Floor("far_counter_positions", int(r.Counter("far_counter_positions")), len(marks))
 }
